@@ -126,6 +126,11 @@ def check_property(pid, tier, seed, write_evidence=True):
             if u not in units:
                 units.append(u)
     budgets = dict(BUDGETS)
+    if tier == "thorough":
+        os.environ.setdefault("VERIF_CROSS_SAMPLE", "12")
+        import pyvc.runner as _rn
+
+        _rn.CROSS_SAMPLE = int(os.environ["VERIF_CROSS_SAMPLE"])
     rep = verify_units(units, budgets) if units else {}
     base = baseline_names()
 
@@ -250,6 +255,22 @@ def check_property(pid, tier, seed, write_evidence=True):
         if not P.get("harness") and not P.get("bounded"):
             exit_code = 2
 
+    cross = None
+    if tier == "thorough":
+        # second solver: a deterministic sample of the obligations z3 discharged is re-checked by cvc5 (queries with
+        # lambda terms are skipped: cvc5 1.0.3 does not parse them); a disagreement is a checker error, never a verdict
+        from concurrent.futures import ThreadPoolExecutor as _TPE
+
+        from pyvc import solve as _solve
+
+        texts = [x["smt2_cross"] for x in deciding if x.get("smt2_cross")][:400]
+        if texts:
+            with _TPE(max_workers=14) as ex_:
+                outs = list(ex_.map(lambda t_: _solve.run_cvc5(t_, 20)[0], texts))
+            cross = dict(second_solver="cvc5 1.0.3 --full-saturate-quant", sampled=len(texts), agree_unsat=outs.count("unsat"), unknown=outs.count("unknown"), disagree_sat=outs.count("sat"))
+            if outs.count("sat"):
+                print(f"CHECKER-ERROR property={pid}: cvc5 finds a model for an obligation z3 discharged ({outs.count('sat')} of {len(texts)} sampled)")
+                return 3
     lemma_check = None
     if tier == "thorough" and any(g in ("scheduler", "digraph", "graphbuild", "subdag") for g in P["groups"]):
         # L1 / L2 (used as axiom instances by the scheduler, selection and description-branch proofs) are re-checked by Lean
@@ -298,6 +319,7 @@ def check_property(pid, tier, seed, write_evidence=True):
             samples=samples + bsamples[:3],
             claim=claim,
             lemmas=lemma_check,
+            cross_check=cross,
             explanation=P.get("explanation", "") + " " + ("all deciding obligations discharged" if proof_ok else "not every deciding obligation is discharged (see undischarged / function_errors); bounded stand-in results are listed separately and are not proof"),
             evaluations=max(1, n_dec + sum(s.get("runs", 0) for s in standins) + sum(er["runs"] for er in extra)), distinct_nontrivial=max(2, len({x["name"] for x in deciding})),
             rule="one evaluation = one clause-level proof obligation (path condition => clause) generated from the current source, or one controlled run of the real scheduler in the stand-in; distinct = distinct obligation names",
